@@ -31,5 +31,7 @@ one() {
 }
 export -f one
 echo "== seeds ($SEEDMODE) and benign refactorings ($J at a time)"
-( for d in /verif/seeded/*/; do id=$(basename $d); echo "seed $id /verif/seeded/$id/patch.diff"; done
-  for f in /verif/benign/*/*.diff; do echo "benign $(basename $(dirname $f))/$(basename $f .diff) $f"; done ) | xargs -P $J -L 1 bash -c 'one $0 $1 $2'
+# REGRESS_ORDER=benign lists the refactorings first (a run that is cut short then still covers the false-alarm side); REGRESS_ONLY=seed|benign
+list_seeds() { [ "$REGRESS_ONLY" = benign ] || for d in /verif/seeded/*/; do id=$(basename $d); echo "seed $id /verif/seeded/$id/patch.diff"; done; }
+list_benign() { [ "$REGRESS_ONLY" = seed ] || for f in /verif/benign/*/*.diff; do echo "benign $(basename $(dirname $f))/$(basename $f .diff) $f"; done; }
+( if [ "$REGRESS_ORDER" = benign ]; then list_benign; list_seeds; else list_seeds; list_benign; fi ) | xargs -P $J -L 1 bash -c 'one $0 $1 $2'
